@@ -520,6 +520,25 @@ func cmdDigest(args []string) int {
 	return 0
 }
 
+func componentsFor(prop string) map[string]string {
+	switch prop {
+	case "C18":
+		return map[string]string{
+			"real": "cockroachdb/errors built from /repo's working tree with yield points compiled into every statement (overlay; file:line unchanged), real goroutines, fmt, redact, gogo/protobuf, sentry-go event construction; layer 3: the same code under the Go race detector",
+			"stub": "goroutine scheduling in layers 1-2 (exactly one observer runs at a time; every switch is drawn from the tape at a yield point); layer 3's interleaving is the Go runtime's, not the simulator's",
+		}
+	case "C20":
+		return map[string]string{
+			"real": "cockroachdb/errors incl. grpc/middleware interceptors, google.golang.org/grpc client and server, HTTP/2 framing, gogo/status, protobuf",
+			"stub": "the network: in-memory listener/conn whose writes are fragmented as a function of (seed, direction, stream offset); goroutine interleaving inside gRPC is the Go runtime's",
+		}
+	}
+	return map[string]string{
+		"real": "cockroachdb/errors (all packages, built from /repo working tree with -tags verif), gogo/protobuf marshal/unmarshal, cockroachdb/redact, logtags, sentry-go event construction (and ReportError through the SDK's Transport seam for C03), pkg/errors, grpc status types",
+		"stub": "process boundary (registry set swapped by hook H1), network (in-memory priority queue carrying real protobuf bytes), logical clock, warning log (counter)",
+	}
+}
+
 // ---- run (parent) ----------------------------------------------------------
 
 type evidence struct {
@@ -767,10 +786,7 @@ func cmdRun(args []string) int {
 				"companion_layer":       extraEv,
 				"enumerated_cases":      enumN,
 				"exhaustive":            false,
-				"components": map[string]string{
-					"real": "cockroachdb/errors (all packages, built from /repo working tree with -tags verif), gogo/protobuf marshal/unmarshal, cockroachdb/redact, logtags, sentry-go event construction, pkg/errors, grpc status types",
-					"stub": "process boundary (registry set swapped by hook H1), network (in-memory priority queue carrying real protobuf bytes), logical clock, warning log (counter)",
-				},
+				"components": componentsFor(outProp),
 			},
 			Assumptions: []string{
 				"seeded sampling, not proof; bounds: tree depth<=7, <=24 nodes, <=6 processes, <=8 hops, <=64 deliveries per run",
